@@ -31,8 +31,17 @@ MANIFEST = dict(
          "(C05_pop_spellings; canonical path: C05_pop_hit, C05_pop_hit_recursive); pop of a path on which item access raises "
          "(and leaves the tree alone) returns the default and changes nothing (C05_pop_miss, conditional on that lookup "
          "behaviour); a popped dict key is no longer present when keys are unique (C05_pop_not_present). "
+         "Sequences mixing deletes with C02/C03 writes (C05_history, the same theorem as C03_history): operations Hist.Op = "
+         "write to an existing node | creation by a CStep path of the honoured grammar | delete | pop (both with and "
+         "without recursively), each called with the canonical path of the node in the CURRENT state; for every finite "
+         "history that is valid state by state (Hist.ValidOps; only the paths of the operations must consist of plain "
+         "names, written values are arbitrary) the model run through __setitem__/delete/pop equals the fold of the plain "
+         "reference (setAt, createIn, delAt, pruneUp), nothing raises, and every pop returned the node lookup found in the "
+         "state before it (C05_history_delRef ties the reference of delete/pop to delAt / pruneUp; C05_history_pop_gone: a "
+         "popped dict entry is absent afterwards, in any state a history reaches). "
          "Differential only: that every missing path makes item access raise (only the out-of-range-index kind is proved, "
-         "C01_out_of_range_miss), histories mixing deletes with C02 writes, object identity of the popped value, and the "
+         "C01_out_of_range_miss), histories whose operations use non-canonical spellings (single operations in every "
+         "spelling are proved), pop of a missing path inside a history, object identity of the popped value, and the "
          "agreement of the models of delete/pop with the real code (compared step by step along random histories in every "
          "spelling lookup accepts); the statement (tree equals a plain reference after each operation, returned values) is "
          "executed on the implementation.",
